@@ -468,13 +468,23 @@ def trace_validation(ctx, exe):
         r = untok(ret)
         events.append((sid, {"cfg": cfgs[sid - 1], "ret": r if r is not None else [], "post": {"calls": calls, "snap": st["snap"], "fds": st["fds"]}}))
     events.sort(key=lambda e: e[0])
-    chunk = 300
+    # TLC's time for one run grows faster than linearly with the size of the whole trace value (an execution with many handler
+    # calls costs more the bigger the OTHER executions in the same file are): small chunks, validated side by side
+    chunk = 40
     total = 0
     ncalls = 0
-    for c0 in range(0, len(events), chunk):
+    from concurrent.futures import ThreadPoolExecutor
+    from vlib.core import NCPU
+    starts = list(range(0, len(events), chunk))
+
+    def judge(c0):
+        evs = [e for _, e in events[c0:c0 + chunk]]
+        return trace.validate(ctx, "ConfParseTrace.tla", "ConfParseTrace.cfg", evs, tag="c09-%d" % c0, timeout=1500, heap="3g")
+    with ThreadPoolExecutor(max(1, min(NCPU, 8))) as ex:
+        verdicts = list(ex.map(judge, starts))
+    for c0, (ok, pos, path) in zip(starts, verdicts):
         part = events[c0:c0 + chunk]
         evs = [e for _, e in part]
-        ok, pos, path = trace.validate(ctx, "ConfParseTrace.tla", "ConfParseTrace.cfg", evs, tag="c09-%d" % c0, timeout=1500)
         total += pos
         ncalls += sum(len(e["post"]["calls"]) for e in evs[:pos])
         if not ok:
@@ -483,7 +493,6 @@ def trace_validation(ctx, exe):
                        "TLC rejects the recorded execution %d (script %d): observed ret=%s calls=%s snap=%s" % (
                            c0 + pos, sid, ev["ret"], json.dumps(ev["post"]["calls"])[:400], ev["post"]["snap"]),
                        {"harness_args": [], "script_text": texts[sid - 1], "event": ev, "event_index": c0 + pos, "trace": path})
-            break
     if events:
         e = events[0][1]
         ctx.sample({"trace_execution": {"files": len(e["cfg"]["content"]), "lines": sum(len(c) for c in e["cfg"]["content"]),
